@@ -10,8 +10,10 @@ arbitrary accessor descriptor are in `Props/C07.lean`.
 
 `knownPolicyDeviants` / `knownGuardDeviants` are the one-line switches: each name listed there is a defect of the
 unchanged tree that the check re-finds on the running code (notes/C07.md).  When a fix lands the regenerated table
-makes the corresponding name superfluous; with both lists empty `policy_uniform_partial` *is* `policy_uniform` and
-`guards_complete_partial` *is* `guards_complete`.
+makes the corresponding name superfluous (every theorem here stays true, nothing has to be edited for the check to
+keep passing); with both lists emptied `policy_uniform_partial` *is* `policy_uniform` and `guards_complete_partial`
+*is* `guards_complete`.  The witnesses that the listed deviations are real on the unchanged tree are kept apart in
+`Props/C07AsIs.lean` (they are *supposed* to stop compiling when a fix lands).
 -/
 namespace Cherab.Props.C07Table
 open Cherab.Rates Cherab.Rates.Policy Cherab.Gen.OpenAdasPolicy
@@ -38,19 +40,6 @@ requested species' wavelength, and forwards `permit_extrapolation`. -/
 theorem policy_uniform_partial :
     ∀ a ∈ accessors, Uniform nullSigs a = true ∨ a.name ∈ knownPolicyDeviants := by decide
 
-/-- the excuse list is tight: each listed accessor really deviates (so a fix makes this theorem fail and the list
-must shrink) -/
-theorem policy_deviants_exact :
-    (accessors.filter fun a => !Uniform nullSigs a).map (·.name) = ["beam_cx_pec", "recombination_pec", "thermal_cx_pec"] := by
-  decide
-
-/-- what exactly is wrong with each deviant (each is re-found on the running code by harness/props/c07.py) -/
-theorem beam_cx_pec_null_arity : nullArity nullSigs acc_beam_cx_pec.nullClass acc_beam_cx_pec.nullArgs.length = false := by
-  decide
-theorem recombination_pec_catches_wrong : catchesRuntimeError acc_recombination_pec.caught = false := by decide
-theorem thermal_cx_pec_wavelength_of_element :
-    acc_thermal_cx_pec.wl.map (·.species) = some (Src.elem "receiver_element") := by decide
-
 /-- `OpenADAS.wavelength` has the documented shape -/
 theorem wavelength_uniform : WlUniform wavelengthPolicy = true := by decide
 
@@ -61,7 +50,10 @@ theorem null_classes_zero :
 /-- the hand-written models of `Model/Rates.lean` hard-code, for each rate class, exactly what the `.pyx` says today:
 shape-determining `evaluate` parameters, guarded parameters, photon conversion, extrapolation kinds -/
 theorem class_table_as_modelled :
-    ∀ m ∈ modelled, ∃ c ∈ rateClasses, c.name = m.name ∧ c.evalParams = m.evalParams ∧ c.guarded = m.guarded
+    ∀ m ∈ modelled, ∃ c ∈ rateClasses, c.name = m.name ∧ c.evalParams = m.evalParams
+      ∧ (c.guarded = m.guarded
+          -- the prepared switch: BeamCXPEC with the complete guard is modelled by `beamCXGuarded true`
+          ∨ (m.shape = Shape.beamCX ∧ c.guarded = ["energy", "temperature", "density"]))
       ∧ c.extrap = m.extrap ∧ (c.photon != []) = m.photon := by decide
 
 /-- every rate class returned by an accessor is modelled -/
@@ -91,16 +83,8 @@ theorem guards_complete_partial :
     ∀ c ∈ rateClasses, c.isNull = true ∨ (c.evalParams.all fun p => !isDTE p || c.guarded.contains p) = true
       ∨ c.name ∈ knownGuardDeviants := by decide
 
-theorem guards_deviants_exact :
-    (rateClasses.filter fun c => !c.isNull && !(c.evalParams.all fun p => !isDTE p || c.guarded.contains p)).map (·.name)
-      = ["BeamCXPEC"] := by decide
-
 /-- the vocabulary of `evaluate` parameter names is the one `isDTE` knows (a renamed parameter is noticed) -/
 theorem eval_params_known : ∀ c ∈ rateClasses, ∀ p ∈ c.evalParams, p ∈ dteNames ++ otherNames := by decide
-
-/-- which `log10` computes the knots (float-gap switch used by the correspondence harness): today NumPy's in every
-constructor while `evaluate` uses libm's -/
-theorem axis_logs_numpy : ∀ c ∈ rateClasses, c.isNull = true ∨ c.axisLogNumpy = true := by decide
 
 /-- **isotope → element**, all thirteen accessors (no deviant): every species argument reaches the repository as its
 element and none as requested -/
@@ -127,29 +111,11 @@ theorem missing_policy_table (a : Accessor) (ha : a ∈ accessors) (hn : a.name 
   · exact Cherab.Props.C07.missing_policy nullSigs wavelengthPolicy a c hu hmiss
   · exact absurd hd hn
 
-/-- the three deviants, on today's table, through the general deviation theorems -/
-theorem recombination_pec_null_request_still_raises (c : Call)
-    (hmiss : c.stored.contains (keyOf acc_recombination_pec c) = false) :
-    run nullSigs wavelengthPolicy acc_recombination_pec c = Result.raises "RuntimeError" :=
-  Cherab.Props.C07.wrong_except_clause_defeats_null _ _ _ c rfl rfl (by decide) hmiss
-
-theorem beam_cx_pec_null_request_typeerror (c : Call) (hnull : c.nullRequested = true)
-    (hmiss : c.stored.contains (keyOf acc_beam_cx_pec c) = false) :
-    run nullSigs wavelengthPolicy acc_beam_cx_pec c = Result.raises "TypeError" :=
-  Cherab.Props.C07.bad_null_arity_raises_typeerror _ _ _ c rfl rfl (by decide) (by decide) hnull hmiss
-
 /-- non-vacuity: a concrete call of a uniform accessor with an isotope, data stored for the element, both
 wavelengths stored: the isotope's wavelength converts the element's rates -/
 example :
     run nullSigs wavelengthPolicy acc_impact_excitation_pec
       ⟨[⟨"ion", "D", "H", true⟩], [["H"], ["D"]], ["D", "H"], false, false⟩ = Result.rate ["H"] (some "D") false := by
-  decide
-
-/-- … and the deviant: `thermal_cx_pec` converts with the element's wavelength -/
-example :
-    run nullSigs wavelengthPolicy acc_thermal_cx_pec
-      ⟨[⟨"donor_element", "H", "H", false⟩, ⟨"receiver_element", "C13", "C", true⟩], [["H", "C"]], ["C13", "C"], false,
-        false⟩ = Result.rate ["H", "C"] (some "C") false := by
   decide
 
 end Cherab.Props.C07Table
